@@ -385,3 +385,33 @@ Proof.
   apply andb_true_iff in Ha. destruct Ha as [Har Hal].
   rewrite (facc_row_contract (tdt t) _ Hf Har), (IH Hal). reflexivity.
 Qed.
+
+(* ---------------------------------------------------------------- towards the accuracy part of H_num: the rounding steps
+   of the model are nearest-roundings *)
+(* round-half-even returns a nearest integer: | rhe a b - a/b | <= 1/2 *)
+Lemma rhe_nearest a b : 0 <= a -> 0 < b -> 2 * Z.abs (rhe a b * b - a) <= b.
+Proof.
+  intros Ha Hb. unfold rhe. pose proof (Z_div_mod a b ltac:(lia)) as H.
+  destruct (Z.div_eucl a b) as [q r]. destruct H as [E R].
+  destruct (2 * r <? b) eqn:E1; [nia|]. destruct (b <? 2 * r) eqn:E2; [nia|].
+  destruct (Z.even q); nia.
+Qed.
+
+Lemma rhe_nonneg a b : 0 <= a -> 0 < b -> 0 <= rhe a b.
+Proof.
+  intros Ha Hb. unfold rhe. pose proof (Z_div_mod a b ltac:(lia)) as H.
+  destruct (Z.div_eucl a b) as [q r]. destruct H as [E R].
+  assert (0 <= q) by nia.
+  destruct (2 * r <? b); [lia|]. destruct (b <? 2 * r); [lia|]. destruct (Z.even q); lia.
+Qed.
+
+(* the integer the printer turns into digits is the value divided by 10^k, correctly rounded -- whatever k is *)
+Lemma scaled_rhe_nearest N D k : 0 <= N -> 0 < D ->
+  if 0 <=? k then 2 * Z.abs (scaled_rhe 10 N D k * (D * 10 ^ k) - N) <= D * 10 ^ k
+  else 2 * Z.abs (scaled_rhe 10 N D k * D - N * 10 ^ (- k)) <= D.
+Proof.
+  intros HN HD. unfold scaled_rhe. destruct (0 <=? k) eqn:E.
+  - apply rhe_nearest; [exact HN|]. assert (0 < 10 ^ k) by (apply Z.pow_pos_nonneg; lia). nia.
+  - apply rhe_nearest; [|exact HD]. assert (0 < 10 ^ (- k)) by (apply Z.pow_pos_nonneg; lia). nia.
+Qed.
+
